@@ -29,7 +29,7 @@ import (
 	"github.com/element-of-surprise/coercion/workflow/utils/clone"
 )
 
-var kinds = []string{"plan", "block", "sequence", "checks", "action", "plan"}
+var kinds = []string{"plan", "block", "sequence", "plan", "checks", "action"}
 
 type built struct {
 	plan     *workflow.Plan
@@ -128,9 +128,10 @@ func build(root *core.Rand, i int, set *hplug.Set, big bool) *built {
 	if i%7 == 6 {
 		b.stream = "irregular"
 	}
-	b.opts = plangen.Opts{GroupP: []float64{0.15, 0.35, 0.6}[i%3], MaxBlocks: 1 + i%2, MaxSeqs: 1 + (i/2)%2, MaxActions: 1 + (i/4)%3, KeyP: 0.3, AltP: 0.3}
+	// shape parameters come from the PRNG (not from the index) so that they are independent of kind and mode
+	b.opts = plangen.Opts{GroupP: []float64{0.15, 0.35, 0.6}[r.Intn(3)], MaxBlocks: r.Range(1, 2), MaxSeqs: r.Range(1, 2), MaxActions: r.Range(1, 3), KeyP: 0.3, AltP: 0.3}
 	if big {
-		b.opts.MaxBlocks, b.opts.MaxSeqs = 1+i%3, 1+(i/3)%3
+		b.opts.MaxBlocks, b.opts.MaxSeqs = r.Range(1, 3), r.Range(1, 3)
 	}
 	g := plangen.New(r, b.opts)
 	b.plan = g.Plan()
